@@ -310,6 +310,23 @@ func (c *FnCtx) runBody() {
 				}
 				var t string
 				var first Val
+				if c.abstract {
+					// abstracting tier: a merge of interior pointers becomes an arbitrary non-nil reference that may
+					// be copied and compared but never dereferenced (exec refuses a load/store/field address of it)
+					interior := false
+					for i := range ins {
+						if v := c.val(phi.Edges[predIndex(b, ins[i].p)]); len(v.Path) > 0 {
+							interior = true
+						}
+					}
+					if interior {
+						n := c.fresh("absptr_"+phi.Name(), "Int")
+						c.define("(not (= " + n + " 0))")
+						c.setVal(phi, Val{T: n, Ty: phi.Type()})
+						c.used["abstracting tier: a merge of interior pointers is an opaque reference (never dereferenced)"] = true
+						continue
+					}
+				}
 				for i := len(ins) - 1; i >= 0; i-- {
 					pi := predIndex(b, ins[i].p)
 					v := c.val(phi.Edges[pi])
